@@ -487,9 +487,17 @@ func genFor(prop, part string, seed uint64) *Scenario {
 		pf.endKinds = []string{"natural", "natural", "cancel", "shutdown"}
 		pf.afterP = 20
 		pf.popP = 30
+		pf.narrowP = 12 // rows whose width is used up before every decorator was drawn
 	case "C05":
 		if part == "queue" {
 			return genC05Queue(seed)
+		}
+		if part == "late" {
+			// pop-mode programs with bars queued after a bar that has finished
+			// zero to five frames earlier (C06's generator)
+			sc := genC06(seed, "pop")
+			sc.Fam = "C05/late"
+			return sc
 		}
 		if part == "err" {
 			sc := genC15(seed, "filler")
